@@ -1,1 +1,1022 @@
-fn main(){}
+//! clisim — the real `jp` process under the sysshim syscall seam, compared
+//! with an oracle computed in-process from the library (C18).
+//!
+//!   clisim run  --seed S --start A --count N --jp PATH --shim PATH --work DIR --out FILE [--samples K]
+//!   clisim exec --file CASE.json --jp PATH --shim PATH --work DIR [--verbose]
+//!   clisim gen  --seed S --index I
+//!   clisim grid                      (prints the fixed grid of cases as JSON lines)
+
+use jmespath::Variable;
+use serde_json::{json, Value};
+use simcore::gen::ExprGen;
+use simcore::{fnv, mix, ExtraFns, Hasher64, Rng, J};
+use std::collections::{BTreeMap, BTreeSet};
+use std::io::{Read, Write};
+use std::process::{Command, Stdio};
+use std::rc::Rc;
+use std::time::{Duration, Instant};
+
+// ------------------------------------------------------------------ case
+
+#[derive(Clone, Debug, PartialEq)]
+struct Case {
+    expr: Vec<u8>,
+    /// "argv" | "file"
+    expr_via: String,
+    input: Vec<u8>,
+    /// "stdin_file" | "stdin_pipe" | "file"
+    input_via: String,
+    unquoted: bool,
+    ast: bool,
+    /// "" | "both_expr_sources" | "no_expr"
+    illegal: String,
+    /// real (not injected) absence: "expr_missing" | "expr_is_dir" | "input_missing" | "input_is_dir"
+    real_fs: Vec<String>,
+    /// shim directives
+    plan: Vec<String>,
+    /// labels for coverage cells (do not influence execution)
+    expr_class: String,
+    input_class: String,
+}
+
+fn hex(b: &[u8]) -> String {
+    b.iter().map(|x| format!("{:02x}", x)).collect()
+}
+fn unhex(s: &str) -> Vec<u8> {
+    (0..s.len() / 2)
+        .filter_map(|i| u8::from_str_radix(&s[2 * i..2 * i + 2], 16).ok())
+        .collect()
+}
+
+fn case_to_json(c: &Case) -> Value {
+    json!({
+        "expr_hex": hex(&c.expr), "expr_text": String::from_utf8_lossy(&c.expr), "expr_via": c.expr_via,
+        "input_hex": hex(&c.input), "input_text": String::from_utf8_lossy(&c.input), "input_via": c.input_via,
+        "unquoted": c.unquoted, "ast": c.ast, "illegal": c.illegal, "real_fs": c.real_fs, "plan": c.plan,
+        "expr_class": c.expr_class, "input_class": c.input_class,
+    })
+}
+
+fn case_from_json(v: &Value) -> Result<Case, String> {
+    let s = |k: &str| v.get(k).and_then(|x| x.as_str()).unwrap_or("").to_string();
+    let list = |k: &str| -> Vec<String> {
+        v.get(k)
+            .and_then(|x| x.as_array())
+            .map(|a| a.iter().filter_map(|x| x.as_str().map(|y| y.to_string())).collect())
+            .unwrap_or_default()
+    };
+    // *_bytes (list of ints) wins over *_hex: the minimiser edits byte lists
+    let bytes = |k: &str| -> Vec<u8> {
+        if let Some(a) = v.get(&format!("{}_bytes", k)).and_then(|x| x.as_array()) {
+            a.iter().filter_map(|x| x.as_u64()).map(|x| x as u8).collect()
+        } else {
+            unhex(&s(&format!("{}_hex", k)))
+        }
+    };
+    Ok(Case {
+        expr: bytes("expr"),
+        expr_via: if s("expr_via").is_empty() { "argv".into() } else { s("expr_via") },
+        input: bytes("input"),
+        input_via: if s("input_via").is_empty() { "stdin_file".into() } else { s("input_via") },
+        unquoted: v.get("unquoted").and_then(|x| x.as_bool()).unwrap_or(false),
+        ast: v.get("ast").and_then(|x| x.as_bool()).unwrap_or(false),
+        illegal: s("illegal"),
+        real_fs: list("real_fs"),
+        plan: list("plan"),
+        expr_class: s("expr_class"),
+        input_class: s("input_class"),
+    })
+}
+
+// ------------------------------------------------------------------ plan interpretation (oracle side)
+
+#[derive(Default, Debug)]
+struct TPlan {
+    openerr: Option<i32>,
+    readerr_after: Option<usize>,
+    eof_after: Option<usize>,
+    eintr: bool,
+    chunk: bool,
+}
+
+fn plan_for(plan: &[String], target: &str) -> TPlan {
+    let mut t = TPlan::default();
+    for d in plan {
+        let p: Vec<&str> = d.split(':').collect();
+        if p.len() < 2 || p[1] != target {
+            continue;
+        }
+        match p[0] {
+            "openerr" => t.openerr = p.get(2).and_then(|x| x.parse().ok()),
+            "readerr" => t.readerr_after = p.get(2).and_then(|x| x.parse().ok()),
+            "eof" => t.eof_after = p.get(2).and_then(|x| x.parse().ok()),
+            "eintr" => t.eintr = true,
+            "chunk" => t.chunk = true,
+            _ => {}
+        }
+    }
+    t
+}
+
+/// What a reader that reads to the end obtains from `bytes` under the plan:
+/// Ok(delivered bytes) or Err(()) for "the source is unreadable".
+fn deliver(bytes: &[u8], t: &TPlan, is_file: bool) -> Result<Vec<u8>, ()> {
+    if is_file && t.openerr.is_some() {
+        return Err(());
+    }
+    // Mirrors the shim: before each read it checks, in this order, "error once e
+    // bytes were delivered", "EOF once f bytes were delivered"; the data itself
+    // ends at L.  A reader that reads to the end stops at min(e, f, L); it fails
+    // iff the error point is reached first (ties go to the error).
+    let l = bytes.len();
+    let e = t.readerr_after.unwrap_or(usize::MAX);
+    let f = t.eof_after.unwrap_or(usize::MAX);
+    if e <= f && e <= l {
+        Err(())
+    } else {
+        Ok(bytes[..f.min(l)].to_vec())
+    }
+}
+
+#[derive(Debug, Clone, PartialEq)]
+enum Expect {
+    Failure(String),
+    Success { stdout: Vec<u8>, no_input_access: bool },
+}
+
+/// The library is called in-process; should it panic, the only thing jp can
+/// legally do is fail with a diagnosis (it "never panics"), so that is the
+/// expectation — and jp's own panic is then reported by `judge`.
+fn oracle(c: &Case) -> Expect {
+    match std::panic::catch_unwind(|| oracle_inner(c)) {
+        Ok(e) => e,
+        Err(_) => Expect::Failure("the library itself panics on this input".into()),
+    }
+}
+
+fn oracle_inner(c: &Case) -> Expect {
+    if !c.illegal.is_empty() {
+        return Expect::Failure(format!("illegal flag combination: {}", c.illegal));
+    }
+    // expression source
+    let expr_bytes = if c.expr_via == "file" {
+        if c.real_fs.iter().any(|x| x == "expr_missing" || x == "expr_is_dir") {
+            return Expect::Failure("expression file unreadable (real)".into());
+        }
+        match deliver(&c.expr, &plan_for(&c.plan, "expr.txt"), true) {
+            Ok(b) => b,
+            Err(()) => return Expect::Failure("expression file unreadable (injected)".into()),
+        }
+    } else {
+        c.expr.clone()
+    };
+    let text = match String::from_utf8(expr_bytes) {
+        Ok(t) => t,
+        Err(_) => return Expect::Failure("expression is not UTF-8".into()),
+    };
+    let expr = match jmespath::compile(&text) {
+        Ok(e) => e,
+        Err(_) => return Expect::Failure("expression does not compile".into()),
+    };
+    if c.ast {
+        return Expect::Success {
+            stdout: format!("{:#?}\n", expr.as_ast()).into_bytes(),
+            no_input_access: true,
+        };
+    }
+    // input
+    let delivered = match c.input_via.as_str() {
+        "file" => {
+            if c.real_fs.iter().any(|x| x == "input_missing" || x == "input_is_dir") {
+                return Expect::Failure("input file unreadable (real)".into());
+            }
+            deliver(&c.input, &plan_for(&c.plan, "in.json"), true)
+        }
+        _ => deliver(&c.input, &plan_for(&c.plan, "stdin"), false),
+    };
+    let delivered = match delivered {
+        Ok(b) => b,
+        Err(()) => return Expect::Failure("input unreadable (injected)".into()),
+    };
+    let intext = match String::from_utf8(delivered) {
+        Ok(t) => t,
+        Err(_) => return Expect::Failure("input is not UTF-8".into()),
+    };
+    let var = match Variable::from_json(&intext) {
+        Ok(v) => v,
+        Err(_) => return Expect::Failure("input is not JSON".into()),
+    };
+    let data = Rc::new(var);
+    let result = match expr.search(&data) {
+        Ok(r) => r,
+        Err(_) => return Expect::Failure("search fails".into()),
+    };
+    let mut out = if c.unquoted && result.is_string() {
+        result.as_string().unwrap().clone().into_bytes()
+    } else {
+        match serde_json::to_string_pretty(&result) {
+            Ok(s) => s.into_bytes(),
+            Err(_) => return Expect::Failure("result cannot be serialised".into()),
+        }
+    };
+    out.push(b'\n');
+    Expect::Success {
+        stdout: out,
+        no_input_access: false,
+    }
+}
+
+// ------------------------------------------------------------------ running jp
+
+struct Obs {
+    status: Option<i32>,
+    signal: bool,
+    timeout: bool,
+    stdout: Vec<u8>,
+    stderr: Vec<u8>,
+    trace: String,
+    argv: Vec<String>,
+}
+
+struct Env<'a> {
+    jp: &'a str,
+    shim: &'a str,
+    work: &'a str,
+}
+
+fn run_case(env: &Env, c: &Case, tag: &str) -> Result<Obs, String> {
+    let dir = format!("{}/c_{}", env.work, tag);
+    let _ = std::fs::remove_dir_all(&dir);
+    std::fs::create_dir_all(&dir).map_err(|e| format!("mkdir {}: {}", dir, e))?;
+    let mut argv: Vec<String> = vec![];
+    if c.unquoted {
+        argv.push("-u".into());
+    }
+    if c.ast {
+        argv.push("--ast".into());
+    }
+    let expr_path = format!("{}/expr.txt", dir);
+    let in_path = format!("{}/in.json", dir);
+    let with_file_expr = c.expr_via == "file" || c.illegal == "both_expr_sources";
+    if with_file_expr {
+        if c.real_fs.iter().any(|x| x == "expr_is_dir") {
+            std::fs::create_dir_all(&expr_path).map_err(|e| e.to_string())?;
+        } else if !c.real_fs.iter().any(|x| x == "expr_missing") {
+            std::fs::write(&expr_path, &c.expr).map_err(|e| e.to_string())?;
+        }
+        argv.push("-e".into());
+        argv.push(expr_path.clone());
+    }
+    if c.input_via == "file" {
+        if c.real_fs.iter().any(|x| x == "input_is_dir") {
+            std::fs::create_dir_all(&in_path).map_err(|e| e.to_string())?;
+        } else if !c.real_fs.iter().any(|x| x == "input_missing") {
+            std::fs::write(&in_path, &c.input).map_err(|e| e.to_string())?;
+        }
+        argv.push("-f".into());
+        argv.push(in_path.clone());
+    }
+    if (c.expr_via == "argv" && c.illegal != "no_expr") || c.illegal == "both_expr_sources" {
+        let t = String::from_utf8(c.expr.clone()).map_err(|_| "argv expression must be UTF-8".to_string())?;
+        if t.contains('\0') {
+            return Err("argv expression must not contain NUL".into());
+        }
+        argv.push(t);
+    }
+    let trace_path = format!("{}/trace.txt", dir);
+    let stdin_path = format!("{}/stdin.bin", dir);
+    let mut cmd = Command::new(env.jp);
+    cmd.args(&argv)
+        .env_clear()
+        .env("LD_PRELOAD", env.shim)
+        .env("SYSSHIM_TRACE", &trace_path)
+        .env("SYSSHIM_PLAN", c.plan.join(";"))
+        .env("RUST_BACKTRACE", "0")
+        .env("LC_ALL", "C")
+        .current_dir(&dir)
+        .stdout(Stdio::piped())
+        .stderr(Stdio::piped());
+    let pipe_stdin = c.input_via == "stdin_pipe";
+    if pipe_stdin {
+        cmd.stdin(Stdio::piped());
+    } else if c.input_via == "stdin_file" {
+        std::fs::write(&stdin_path, &c.input).map_err(|e| e.to_string())?;
+        cmd.stdin(std::fs::File::open(&stdin_path).map_err(|e| e.to_string())?);
+    } else {
+        cmd.stdin(Stdio::null());
+    }
+    let mut child = cmd.spawn().map_err(|e| format!("spawn {}: {}", env.jp, e))?;
+    let mut writer = None;
+    if pipe_stdin {
+        let mut sin = child.stdin.take().unwrap();
+        let data = c.input.clone();
+        writer = Some(std::thread::spawn(move || {
+            // deliberately awkward producer: small writes; the shim makes jp's view independent of this
+            for ch in data.chunks(7) {
+                if sin.write_all(ch).is_err() {
+                    break;
+                }
+            }
+        }));
+    }
+    let mut so = child.stdout.take().unwrap();
+    let mut se = child.stderr.take().unwrap();
+    let t_out = std::thread::spawn(move || {
+        let mut b = Vec::new();
+        let _ = so.read_to_end(&mut b);
+        b
+    });
+    let t_err = std::thread::spawn(move || {
+        let mut b = Vec::new();
+        let _ = se.read_to_end(&mut b);
+        b
+    });
+    // wall clock: budget only (20 s for a sub-millisecond program)
+    let t0 = Instant::now();
+    let mut sleep = Duration::from_micros(100);
+    let mut timeout = false;
+    let status = loop {
+        match child.try_wait() {
+            Ok(Some(st)) => break Some(st),
+            Ok(None) => {
+                if t0.elapsed() > Duration::from_secs(20) {
+                    let _ = child.kill();
+                    let _ = child.wait();
+                    timeout = true;
+                    break None;
+                }
+                std::thread::sleep(sleep);
+                if sleep < Duration::from_millis(5) {
+                    sleep *= 2;
+                }
+            }
+            Err(e) => return Err(format!("wait: {}", e)),
+        }
+    };
+    if let Some(w) = writer {
+        let _ = w.join();
+    }
+    let stdout = t_out.join().unwrap_or_default();
+    let stderr = t_err.join().unwrap_or_default();
+    let trace = std::fs::read_to_string(&trace_path).unwrap_or_default();
+    let _ = std::fs::remove_dir_all(&dir);
+    use std::os::unix::process::ExitStatusExt;
+    Ok(Obs {
+        status: status.and_then(|s| s.code()),
+        signal: status.map_or(false, |s| s.signal().is_some()),
+        timeout,
+        stdout,
+        stderr,
+        trace: trace.replace(&dir, "<dir>"),
+        argv,
+    })
+}
+
+fn trunc(b: &[u8], n: usize) -> String {
+    let s = String::from_utf8_lossy(b);
+    s.chars().take(n).collect()
+}
+
+/// Compare observation with expectation.  Returns violated clauses.
+fn judge(c: &Case, exp: &Expect, o: &Obs) -> Vec<(&'static str, String)> {
+    let mut v = vec![];
+    if o.timeout {
+        v.push(("timeout", "jp did not exit within 20 s".to_string()));
+        return v;
+    }
+    if o.signal {
+        v.push(("signal", format!("jp was killed by a signal; stderr: {}", trunc(&o.stderr, 300))));
+        return v;
+    }
+    let code = o.status.unwrap_or(-1);
+    let err_text = String::from_utf8_lossy(&o.stderr);
+    if code == 101 || err_text.contains("panicked at") {
+        v.push(("panic", format!("jp panicked (status {}): {}", code, trunc(&o.stderr, 400))));
+        return v;
+    }
+    match exp {
+        Expect::Failure(why) => {
+            if code == 0 {
+                v.push((
+                    "wrong-status",
+                    format!("expected failure ({}) but jp exited 0 with stdout {:?}", why, trunc(&o.stdout, 300)),
+                ));
+            }
+            if !o.stdout.is_empty() {
+                v.push((
+                    "stdout-on-failure",
+                    format!("expected failure ({}) with nothing on stdout, got {:?} (status {})", why, trunc(&o.stdout, 300), code),
+                ));
+            }
+            if code != 0 && o.stderr.is_empty() {
+                v.push(("no-diagnosis", format!("failure ({}) with status {} but empty stderr", why, code)));
+            }
+        }
+        Expect::Success { stdout, no_input_access } => {
+            if code != 0 {
+                v.push((
+                    "wrong-status",
+                    format!("library succeeds but jp exited {} with stderr {:?}", code, trunc(&o.stderr, 300)),
+                ));
+            } else if &o.stdout != stdout {
+                v.push((
+                    "wrong-stdout",
+                    format!("jp printed {:?} but the library result prints as {:?}", trunc(&o.stdout, 400), trunc(stdout, 400)),
+                ));
+            }
+            if *no_input_access {
+                let touched = o
+                    .trace
+                    .lines()
+                    .any(|l| (l.starts_with("read ") && l.contains("target=stdin")) || l.contains("target=in.json"));
+                if touched {
+                    v.push((
+                        "read-under-ast",
+                        format!("--ast must not read input, but the syscall trace shows: {}", o.trace.lines().filter(|l| l.contains("stdin") || l.contains("in.json")).take(3).collect::<Vec<_>>().join(" / ")),
+                    ));
+                }
+            }
+        }
+    }
+    let _ = c;
+    v
+}
+
+/// Faults that are outside the statement (output sink failures, EINTR): their
+/// runs are executed and recorded but never alarmed.
+fn informational(c: &Case) -> bool {
+    c.plan
+        .iter()
+        .any(|d| d.starts_with("wshort:") || d.starts_with("werr:") || d.starts_with("eintr:"))
+}
+
+// ------------------------------------------------------------------ generation
+
+fn json_doc_text(r: &mut Rng, j: &J) -> Vec<u8> {
+    let mut t = j.to_json();
+    if r.chance(1, 4) {
+        t = format!("{}{}{}", r.pick(&["", " ", "\n", "\t \r\n"]), t, r.pick(&["", "\n", "  ", "\r\n"]));
+    }
+    t.into_bytes()
+}
+
+fn gen_input(r: &mut Rng, base: &J) -> (Vec<u8>, &'static str) {
+    let good = json_doc_text(r, base);
+    match r.below(20) {
+        0..=10 => (good, "valid"),
+        11 | 12 => {
+            // producer crash image: any prefix, also inside a UTF-8 sequence or an escape
+            let k = if good.is_empty() { 0 } else { r.below(good.len()) };
+            (good[..k].to_vec(), "truncated")
+        }
+        13 => {
+            let mut b = good.clone();
+            if !b.is_empty() {
+                let i = r.below(b.len());
+                b[i] ^= 1 << r.below(8);
+            }
+            (b, "bitflip")
+        }
+        14 => {
+            let mut b = good.clone();
+            let tails: &[&[u8]] = &[b"x", b" 1", b"}", b",", b"\x00", b"[]"];
+            b.extend_from_slice(tails[r.below(tails.len())]);
+            (b, "trailing_garbage")
+        }
+        15 => (Vec::new(), "empty"),
+        16 => {
+            let mut b = good.clone();
+            let i = if b.is_empty() { 0 } else { r.below(b.len()) };
+            b.insert(i, *r.pick(&[0xffu8, 0xc3, 0xed, 0x80]));
+            (b, "invalid_utf8")
+        }
+        17 => {
+            let special: &[&[u8]] = &[
+                b"18446744073709551615",
+                b"18446744073709551616",
+                b"-9223372036854775808",
+                b"-9223372036854775809",
+                b"1e400",
+                b"-0",
+                b"-0.0",
+                b"1E2",
+                b"0.1e-320",
+                b"123456789012345678901234567890",
+                b"[1.0, 1, 1e0]",
+                b"{\"a\": 1, \"a\": 2}",
+                b"\"\\ud83d\\ude00\"",
+                b"\"\\ud83d\"",
+                b"\"\\u0000\"",
+                b"\"\\/\"",
+                b"{\"\": {\"\": 1}}",
+                b"[[[[[[[[[[[[[[[[[[[[[[[[[[[[[[[[[[[[[[[[[[[[[[[[[[[[[[[[[[[[[[[[[[[[[[[[[[[[[[[[[[[[[[[[[[[[[[[[[[[[[[[[[[[[[[[[[[[[[[[[[[[[[[[[[[[[[[[[[[[[[[1]]]]]]]]]]]]]]]]]]]]]]]]]]]]]]]]]]]]]]]]]]]]]]]]]]]]]]]]]]]]]]]]]]]]]]]]]]]]]]]]]]]]]]]]]]]]]]]]]]]]]]]]]]]]]]]]]]]]]]]]]]]]]]]]]]]]]]]]]]]]]]",
+                b"nul",
+                b"true false",
+                b"NaN",
+                b"'single'",
+            ];
+            ((*r.pick(special)).to_vec(), "special")
+        }
+        _ => {
+            // another valid document, unrelated to the expression
+            let j = J::gen_doc(r);
+            (json_doc_text(r, &j), "valid")
+        }
+    }
+}
+
+fn base_has_xs(base: &J) -> bool {
+    matches!(base, J::Obj(m) if m.iter().any(|(k, v)| k == "xs" && matches!(v, J::Arr(a) if a.len() >= 2)))
+}
+
+fn gen_expr(r: &mut Rng, base: &J) -> (Vec<u8>, &'static str) {
+    let none = ExtraFns::default();
+    match r.below(21) {
+        0..=8 => {
+            let d = 1 + r.below(2) as u32;
+            (ExprGen::new(r, &none).for_doc(base, d).into_bytes(), "directed")
+        }
+        9 | 10 => {
+            let d = 1 + r.below(3) as u32;
+            (ExprGen::new(r, &none).expr(d).into_bytes(), "generic")
+        }
+        11 | 12 => (ExprGen::new(r, &none).invalid().into_bytes(), "compile_error"),
+        13 => {
+            let e = *r.pick(&[
+                "nosuchfn(@)",
+                "xs[*].abs(n)",
+                "[::0]",
+                "xs[?id > `0`] | [0].nosuchfn(@)",
+                "abs('x')",
+                "length(`1`)",
+                "sort_by(xs, &n)[::0]",
+                "map(&abs(@), values(@))",
+                "sum(keys(@))",
+                "max_by(xs, &`true`)",
+                "join(`1`, @)",
+            ]);
+            (e.as_bytes().to_vec(), "runtime_error")
+        }
+        14 | 19 if base_has_xs(base) => {
+            // slices and indexes at the edges of the number type
+            let n = |r: &mut Rng| -> String {
+                if r.chance(1, 2) {
+                    (*r.pick(&["2147483647", "-2147483648", "-2147483647", "2147483646", "2147483647", "2147483648", "99999999999"])).to_string()
+                } else {
+                    (*r.pick(&["1", "-1", "0", "3", "2", "-2"])).to_string()
+                }
+            };
+            let pre = *r.pick(&["xs", "xs", "", "a", "xs[*].n | "]);
+            let e = match r.below(6) {
+                0 => format!("{}[{}:{}:{}]", pre, n(r), n(r), n(r)),
+                1 => format!("{}[{}::{}]", pre, n(r), n(r)),
+                2 => format!("{}[::{}]", pre, n(r)),
+                3 => format!("{}[{}]", pre, n(r)),
+                4 => format!("{}[{}:{}]", pre, n(r), n(r)),
+                _ => format!("{}[:{}:{}]", pre, n(r), n(r)),
+            };
+            (e.into_bytes(), "edge_numbers")
+        }
+        15 => {
+            let e = *r.pick(&[
+                "'\u{e4}\u{1F600}'",
+                "`\"\\u20ac\"`",
+                "\"\u{20ac}\"",
+                "@.\"a b\"",
+                "`{\"\u{e4}\": [1, 2.5, \"\u{1F600}\"]}`",
+                "'it\\'s'",
+                "`18446744073709551615`",
+                "`1e400`",
+                "`-0.0`",
+                "to_string(`18446744073709551615`)",
+                "`\"\\ud83d\"`",
+                "'\u{0}'",
+            ]);
+            (e.as_bytes().to_vec(), "unicode_literal")
+        }
+        16 => {
+            let d = 1 + r.below(2) as u32;
+            let e = ExprGen::new(r, &none).for_doc(base, d);
+            (format!("\n  {}\n\t", e.replace(" | ", "\n|\n")).into_bytes(), "multiline")
+        }
+        17 => (
+            (*r.pick(&["&a", "[&a, `1`]", "{x: &@}", "to_string(&a)", "type(&a)"])).as_bytes().to_vec(),
+            "expref_result",
+        ),
+        18 => (
+            (*r.pick(&["@", "", " ", "a", "*", "[]", "[*]", "`null`", "!@", "@ | @"])).as_bytes().to_vec(),
+            "tiny",
+        ),
+        _ => {
+            // expression bytes that are not UTF-8 (only meaningful through -e)
+            let d = 1;
+            let mut b = ExprGen::new(r, &none).for_doc(base, d).into_bytes();
+            let i = if b.is_empty() { 0 } else { r.below(b.len()) };
+            b.insert(i, 0xff);
+            (b, "invalid_utf8")
+        }
+    }
+}
+
+fn gen_plan(r: &mut Rng, c: &Case) -> Vec<String> {
+    let mut plan = vec![];
+    let in_target = if c.input_via == "file" { "in.json" } else { "stdin" };
+    let mut targets = vec![in_target];
+    if c.expr_via == "file" {
+        targets.push("expr.txt");
+    }
+    let len_of = |t: &str| if t == "expr.txt" { c.expr.len() } else { c.input.len() };
+    let n = match r.below(10) {
+        0..=3 => 0,
+        4..=7 => 1,
+        _ => 2,
+    };
+    for _ in 0..n {
+        let t = *r.pick(&targets);
+        match r.below(12) {
+            0..=3 => {
+                let k = 1 + r.below(4);
+                let sizes: Vec<String> = (0..k).map(|_| (*r.pick(&[1usize, 1, 2, 3, 5, 7, 16, 31, 64, 4096])).to_string()).collect();
+                plan.push(format!("chunk:{}:{}", t, sizes.join(",")));
+            }
+            4 | 5 => {
+                if t != "stdin" {
+                    plan.push(format!("openerr:{}:{}", t, r.pick(&[2, 13, 21, 40, 24, 5, 12, 23])));
+                } else {
+                    plan.push(format!("readerr:{}:{}:{}", t, r.below(len_of(t) + 1), r.pick(&[5, 21, 11, 12])));
+                }
+            }
+            // NB: EBADF is deliberately absent: std documents that a closed stdin reads as empty
+            6 | 7 => plan.push(format!("readerr:{}:{}:{}", t, r.below(len_of(t) + 2), r.pick(&[5, 21, 11, 12]))),
+            8 | 9 => plan.push(format!("eof:{}:{}", t, r.below(len_of(t) + 2))),
+            10 => plan.push(format!("eintr:{}:{}", t, 1 + r.below(3))),
+            _ => {
+                if r.chance(1, 2) {
+                    plan.push(format!("wshort:{}:{}", 1 + r.below(2), 1 + r.below(5)));
+                } else {
+                    plan.push(format!("werr:{}:{}:{}", 1 + r.below(2), r.below(20), r.pick(&[28, 32, 5])));
+                }
+            }
+        }
+    }
+    // one directive per (kind, target): later duplicates would silently override
+    let mut seen = BTreeSet::new();
+    plan.retain(|d| {
+        let p: Vec<&str> = d.split(':').collect();
+        seen.insert(format!("{}:{}", p[0], p[1]))
+    });
+    plan
+}
+
+fn gen_case(seed: u64) -> Case {
+    let mut r = Rng::new(seed);
+    let base = if r.chance(2, 3) {
+        // records document
+        let n = r.below(5);
+        let xs: Vec<J> = (0..n)
+            .map(|i| {
+                J::Obj(vec![
+                    ("id".into(), J::Int(i as i64)),
+                    ("n".into(), J::Int(r.range(-5, 20))),
+                    ("s".into(), J::Str((*r.pick(simcore::gen::STRS)).to_string())),
+                ])
+            })
+            .collect();
+        let mut b = 10;
+        J::Obj(vec![
+            ("xs".into(), J::Arr(xs)),
+            ("a".into(), J::gen(&mut r, 2, &mut b, true)),
+            ("a b".into(), J::Str("sp".into())),
+            ("big".into(), J::UInt(u64::MAX)),
+            ("f".into(), J::Float(*r.pick(&[0.1, 1.0, -2.5, 1e21, 1e-7, 123456789.125]))),
+            ("u".into(), J::Str((*r.pick(&["\u{e4}", "\u{1F600}", "a\"b", "tab\there", "\u{7f}", "\\"])).to_string())),
+        ])
+    } else {
+        J::gen_doc(&mut r)
+    };
+    let (expr, expr_class) = gen_expr(&mut r, &base);
+    let (input, input_class) = gen_input(&mut r, &base);
+    let expr_utf8_argv_ok = std::str::from_utf8(&expr).map_or(false, |t| !t.contains('\0') && !t.starts_with('-'));
+    let mut c = Case {
+        expr,
+        expr_via: if !expr_utf8_argv_ok || r.chance(1, 3) { "file".into() } else { "argv".into() },
+        input,
+        input_via: (*r.pick(&["stdin_file", "stdin_file", "stdin_pipe", "file", "file"])).to_string(),
+        unquoted: r.chance(1, 3),
+        ast: r.chance(1, 8),
+        illegal: String::new(),
+        real_fs: vec![],
+        plan: vec![],
+        expr_class: expr_class.into(),
+        input_class: input_class.into(),
+    };
+    if r.chance(1, 40) && expr_utf8_argv_ok {
+        c.illegal = (*r.pick(&["both_expr_sources", "no_expr"])).to_string();
+        c.expr_via = "argv".into();
+    }
+    if r.chance(1, 25) {
+        let mut opts = vec![];
+        if c.expr_via == "file" {
+            opts.push("expr_missing");
+            opts.push("expr_is_dir");
+        }
+        if c.input_via == "file" {
+            opts.push("input_missing");
+            opts.push("input_is_dir");
+        }
+        if !opts.is_empty() {
+            c.real_fs.push((*r.pick(&opts)).to_string());
+        }
+    }
+    c.plan = gen_plan(&mut r, &c);
+    c
+}
+
+/// Fixed grid: flag configurations x program classes x input classes x fault kinds, once each.
+fn grid() -> Vec<Case> {
+    let mut out = vec![];
+    let progs: &[(&str, &str)] = &[
+        ("xs[*].n | sort(@)", "valid"),
+        ("u", "valid_string_result"),
+        ("xs[", "compile_error"),
+        ("xs[*].abs(s)", "runtime_error"),
+    ];
+    let good = "{\"xs\": [{\"n\": 3, \"s\": \"\u{e4}\"}, {\"n\": -1, \"s\": \"b\"}], \"u\": \"\u{1F600} q\\\"q\", \"big\": 18446744073709551615}";
+    let inputs: &[(&str, &str)] = &[(good, "valid"), ("{\"xs\": [", "bad_json")];
+    let faults: &[&str] = &["none", "chunk", "openerr", "readerr", "eof_mid", "missing", "isdir"];
+    for &(p, pc) in progs {
+        for &(inp, ic) in inputs {
+            for expr_via in ["argv", "file"] {
+                for input_via in ["stdin_file", "stdin_pipe", "file"] {
+                    for unquoted in [false, true] {
+                        for ast in [false, true] {
+                            for &f in faults {
+                                let mut c = Case {
+                                    expr: p.as_bytes().to_vec(),
+                                    expr_via: expr_via.into(),
+                                    input: inp.as_bytes().to_vec(),
+                                    input_via: input_via.into(),
+                                    unquoted,
+                                    ast,
+                                    illegal: String::new(),
+                                    real_fs: vec![],
+                                    plan: vec![],
+                                    expr_class: pc.into(),
+                                    input_class: ic.into(),
+                                };
+                                let it = if input_via == "file" { "in.json" } else { "stdin" };
+                                match f {
+                                    "none" => {}
+                                    "chunk" => {
+                                        c.plan.push(format!("chunk:{}:1,2,3", it));
+                                        if expr_via == "file" {
+                                            c.plan.push("chunk:expr.txt:1".into());
+                                        }
+                                    }
+                                    "openerr" => {
+                                        if input_via == "file" {
+                                            c.plan.push("openerr:in.json:13".into());
+                                        } else if expr_via == "file" {
+                                            c.plan.push("openerr:expr.txt:13".into());
+                                        } else {
+                                            continue;
+                                        }
+                                    }
+                                    "readerr" => c.plan.push(format!("readerr:{}:9:5", it)),
+                                    "eof_mid" => c.plan.push(format!("eof:{}:11", it)),
+                                    "missing" => {
+                                        if input_via == "file" {
+                                            c.real_fs.push("input_missing".into());
+                                        } else if expr_via == "file" {
+                                            c.real_fs.push("expr_missing".into());
+                                        } else {
+                                            continue;
+                                        }
+                                    }
+                                    _ => {
+                                        if input_via == "file" {
+                                            c.real_fs.push("input_is_dir".into());
+                                        } else if expr_via == "file" {
+                                            c.real_fs.push("expr_is_dir".into());
+                                        } else {
+                                            continue;
+                                        }
+                                    }
+                                }
+                                out.push(c);
+                            }
+                        }
+                    }
+                }
+            }
+        }
+    }
+    for ill in ["both_expr_sources", "no_expr"] {
+        out.push(Case {
+            expr: b"a".to_vec(),
+            expr_via: "argv".into(),
+            input: b"{}".to_vec(),
+            input_via: "stdin_file".into(),
+            unquoted: false,
+            ast: false,
+            illegal: ill.into(),
+            real_fs: vec![],
+            plan: vec![],
+            expr_class: "valid".into(),
+            input_class: "valid".into(),
+        });
+    }
+    out
+}
+
+// ------------------------------------------------------------------ main
+
+fn arg<'a>(args: &'a [String], name: &str) -> Option<&'a str> {
+    args.iter()
+        .position(|a| a == name)
+        .and_then(|i| args.get(i + 1))
+        .map(|s| s.as_str())
+}
+fn die(msg: &str) -> ! {
+    eprintln!("clisim: {}", msg);
+    std::process::exit(2)
+}
+
+fn fault_kinds(c: &Case) -> Vec<String> {
+    let mut k: Vec<String> = c.plan.iter().map(|d| d.split(':').next().unwrap_or("").to_string()).collect();
+    k.extend(c.real_fs.iter().cloned());
+    if k.is_empty() {
+        k.push("none".into());
+    }
+    k.sort();
+    k.dedup();
+    k
+}
+
+struct Tot {
+    c: BTreeMap<String, u64>,
+    cells: BTreeSet<u64>,
+    cells_nontrivial: BTreeSet<u64>,
+    traces: BTreeSet<u64>,
+}
+
+fn process(env: &Env, idx: u64, c: &Case, tot: &mut Tot, out: &mut dyn Write, verbose: bool) -> usize {
+    let exp = oracle(c);
+    let o = match run_case(env, c, &format!("{:08}", idx)) {
+        Ok(o) => o,
+        Err(e) => die(&format!("case {}: {}", idx, e)),
+    };
+    let viol = judge(c, &exp, &o);
+    let info = informational(c);
+    let kinds = fault_kinds(c);
+    for k in &kinds {
+        // counted where the fault actually hit, as shown by the shim's trace / the file system
+        let hit = match k.as_str() {
+            "none" => true,
+            "chunk" => o.trace.lines().filter(|l| l.starts_with("read ")).count() > 1,
+            "openerr" => o.trace.contains("(injected)") && o.trace.contains("open path="),
+            "readerr" => o.trace.contains("(injected after"),
+            "eof" => o.trace.contains("(injected EOF"),
+            "eintr" => o.trace.contains("injected EINTR"),
+            "wshort" | "werr" => o.trace.contains("write"),
+            _ => true,
+        };
+        *tot.c.entry(format!("fault.{}.{}", if hit { "fired" } else { "planned_not_reached" }, k)).or_insert(0) += 1;
+    }
+    let outcome = match (&exp, o.status) {
+        (Expect::Success { .. }, _) => "success",
+        (Expect::Failure(_), _) => "failure",
+    };
+    *tot.c.entry(format!("expect.{}", outcome)).or_insert(0) += 1;
+    *tot.c.entry(format!("expr.{}", c.expr_class)).or_insert(0) += 1;
+    *tot.c.entry(format!("input.{}", c.input_class)).or_insert(0) += 1;
+    *tot.c.entry(format!("via.{}+{}", c.expr_via, c.input_via)).or_insert(0) += 1;
+    if info {
+        *tot.c.entry("informational_runs".into()).or_insert(0) += 1;
+        if !viol.is_empty() {
+            *tot.c.entry(format!("informational_deviation.{}", viol[0].0)).or_insert(0) += 1;
+        }
+    }
+    let mut ch = Hasher64::new();
+    ch.str(&c.expr_via).str(&c.input_via).u64(c.unquoted as u64).u64(c.ast as u64).str(&c.illegal);
+    ch.str(&c.expr_class).str(&c.input_class).str(&kinds.join("+")).str(outcome);
+    let cell = ch.finish();
+    tot.cells.insert(cell);
+    if kinds != ["none"] || outcome == "failure" {
+        tot.cells_nontrivial.insert(cell);
+    }
+    let th = fnv(o.trace.as_bytes());
+    tot.traces.insert(th);
+    let mut oh = Hasher64::new();
+    // The diagnosis text is not part of the property and is not even deterministic (clap 2
+    // words its conflict errors after a randomly keyed hash order; messages embed scratch
+    // paths; panics embed thread ids).  So only the *presence* of stderr enters the
+    // determinism hash, and writes to fd 2 are dropped from the hashed trace.
+    let norm_trace: Vec<&str> = o
+        .trace
+        .lines()
+        .filter(|l| !(l.starts_with("write fd=2") || l.starts_with("writev fd=2")))
+        .collect();
+    oh.u64(o.status.unwrap_or(-1) as u64).bytes(&o.stdout).u64(o.stderr.is_empty() as u64).str(&norm_trace.join("\n"));
+    writeln!(out, "R {} {:016x} {} {} {:016x}", idx, cell, outcome, o.status.unwrap_or(-1), oh.finish()).unwrap();
+    if verbose {
+        writeln!(out, "  argv: {:?}", o.argv).unwrap();
+        writeln!(out, "  plan: {:?} real_fs: {:?}", c.plan, c.real_fs).unwrap();
+        writeln!(out, "  expected: {}", match &exp {
+            Expect::Failure(w) => format!("failure ({})", w),
+            Expect::Success { stdout, .. } => format!("success, stdout {:?}", trunc(stdout, 300)),
+        })
+        .unwrap();
+        writeln!(out, "  observed: status {:?} stdout {:?} stderr {:?}", o.status, trunc(&o.stdout, 300), trunc(&o.stderr, 300)).unwrap();
+        for l in o.trace.lines().take(40) {
+            writeln!(out, "  trace: {}", l).unwrap();
+        }
+    }
+    let mut n = 0;
+    for (clause, detail) in &viol {
+        if info {
+            writeln!(out, "I {} {} {}", idx, clause, serde_json::to_string(detail).unwrap()).unwrap();
+        } else {
+            n += 1;
+            writeln!(out, "V {} {} {}", idx, clause, serde_json::to_string(detail).unwrap()).unwrap();
+        }
+    }
+    n
+}
+
+fn main() {
+    std::panic::set_hook(Box::new(|_| {}));
+    let args: Vec<String> = std::env::args().collect();
+    let cmd = args.get(1).map(|s| s.as_str()).unwrap_or("");
+    let getenv = || -> (String, String, String) {
+        (
+            arg(&args, "--jp").unwrap_or_else(|| die("--jp required")).to_string(),
+            arg(&args, "--shim").unwrap_or_else(|| die("--shim required")).to_string(),
+            arg(&args, "--work").unwrap_or_else(|| die("--work required")).to_string(),
+        )
+    };
+    match cmd {
+        "gen" => {
+            let seed: u64 = arg(&args, "--seed").and_then(|s| s.parse().ok()).unwrap_or(simcore::DEFAULT_SEED);
+            let index: u64 = arg(&args, "--index").and_then(|s| s.parse().ok()).unwrap_or(0);
+            let c = gen_case(mix(seed, index));
+            println!("{}", serde_json::to_string(&json!({"property":"C18","seed":seed,"index":index,"case":case_to_json(&c)})).unwrap());
+        }
+        "grid" => {
+            for (i, c) in grid().iter().enumerate() {
+                println!("{}", serde_json::to_string(&json!({"property":"C18","grid_index":i,"case":case_to_json(c)})).unwrap());
+            }
+        }
+        "run" | "rungrid" => {
+            let (jp, shim, work) = getenv();
+            let env = Env { jp: &jp, shim: &shim, work: &work };
+            let seed: u64 = arg(&args, "--seed").and_then(|s| s.parse().ok()).unwrap_or(simcore::DEFAULT_SEED);
+            let start: u64 = arg(&args, "--start").and_then(|s| s.parse().ok()).unwrap_or(0);
+            let count: u64 = arg(&args, "--count").and_then(|s| s.parse().ok()).unwrap_or(100);
+            let samples: u64 = arg(&args, "--samples").and_then(|s| s.parse().ok()).unwrap_or(0);
+            let out_path = arg(&args, "--out").unwrap_or_else(|| die("--out required"));
+            let mut out = std::io::BufWriter::new(std::fs::File::create(out_path).unwrap_or_else(|e| die(&e.to_string())));
+            let mut tot = Tot { c: BTreeMap::new(), cells: BTreeSet::new(), cells_nontrivial: BTreeSet::new(), traces: BTreeSet::new() };
+            writeln!(out, "SEED {} start={} count={} mode={}", seed, start, count, cmd).unwrap();
+            let mut nviol = 0;
+            if cmd == "rungrid" {
+                let g = grid();
+                let stride: u64 = arg(&args, "--stride").and_then(|s| s.parse().ok()).unwrap_or(1);
+                for (i, c) in g.iter().enumerate() {
+                    if (i as u64) % stride != start {
+                        continue;
+                    }
+                    nviol += process(&env, i as u64, c, &mut tot, &mut out, false);
+                }
+            } else {
+                for idx in start..start + count {
+                    let c = gen_case(mix(seed, idx));
+                    nviol += process(&env, idx, &c, &mut tot, &mut out, false);
+                    if idx < start + samples {
+                        writeln!(out, "SAMPLE {}", serde_json::to_string(&json!({"index": idx, "case": case_to_json(&c)})).unwrap()).unwrap();
+                    }
+                }
+            }
+            let hexes = |s: &BTreeSet<u64>| -> Vec<String> { s.iter().map(|x| format!("{:016x}", x)).collect() };
+            writeln!(out, "STATS {}", serde_json::to_string(&json!({"counters": tot.c, "cells": hexes(&tot.cells),
+                "cells_nontrivial": hexes(&tot.cells_nontrivial), "traces": hexes(&tot.traces)})).unwrap()).unwrap();
+            writeln!(out, "END violations={}", nviol).unwrap();
+            out.flush().unwrap();
+        }
+        "exec" => {
+            let (jp, shim, work) = getenv();
+            let env = Env { jp: &jp, shim: &shim, work: &work };
+            let file = arg(&args, "--file").unwrap_or_else(|| die("--file required"));
+            let verbose = args.iter().any(|a| a == "--verbose");
+            let text = std::fs::read_to_string(file).unwrap_or_else(|e| die(&format!("cannot read {}: {}", file, e)));
+            let v: Value = serde_json::from_str(&text).unwrap_or_else(|e| die(&format!("bad JSON: {}", e)));
+            let c = case_from_json(v.get("case").unwrap_or(&v)).unwrap_or_else(|e| die(&e));
+            let mut tot = Tot { c: BTreeMap::new(), cells: BTreeSet::new(), cells_nontrivial: BTreeSet::new(), traces: BTreeSet::new() };
+            let so = std::io::stdout();
+            let mut lock = so.lock();
+            let n = process(&env, v.get("index").and_then(|x| x.as_u64()).unwrap_or(0), &c, &mut tot, &mut lock, verbose);
+            writeln!(lock, "END violations={}", n).unwrap();
+        }
+        _ => die("usage: clisim run|rungrid|exec|gen|grid ..."),
+    }
+}
